@@ -97,7 +97,7 @@ def build_driver(name, sources, nitro_sources=(), flags=(), ldflags=(), sanitize
     Returns path of the executable.  Raises Infra on compile errors unless allow_fail, in which
     case (None, stderr) is returned.  cxx: another compiler than the default (g++: the compiler the project's own
     build uses; evaluation order of call arguments and overload resolution details differ from clang's)."""
-    bdir = os.path.join(BUILD, srctag(), name)
+    bdir = os.path.join(BUILD, srctag(), name + ("" if (cxx or CXX) == "clang++" else "_" + re.sub(r"\W", "x", cxx or CXX)))
     os.makedirs(bdir, exist_ok=True)
     # checks may be started in parallel and share drivers (opt_driver, log_driver_*): one builder at a time per driver
     import fcntl
@@ -625,7 +625,7 @@ class Check:
                 exhaustive=self.exhaustive, models=self.models, bounds=self.bounds,
                 action_coverage=self.actions, known_finding_cases=nknown, notes=self.notes,
                 nitro_src=NITRO_SRC),
-            assumptions=self.assumptions, wall_s=round(time.time() - self.t0, 2), violations=nviol)
+            assumptions=list(dict.fromkeys(self.assumptions)), wall_s=round(time.time() - self.t0, 2), violations=nviol)
         os.makedirs(os.path.join(VERIF, "evidence"), exist_ok=True)
         # evidence is only ever written for the real tree
         if os.path.realpath(NITRO_SRC) == "/repo":
